@@ -706,6 +706,27 @@ func TestC13Schedules(t *testing.T) {
 		func(c *overlapCase) bool { return true })
 }
 
+// TestC15Overlap: "no container operation panics on any input" - an operation that overlaps the
+// Close of its scope is an input too. The C13 programs judged for panics and for the class of
+// every error they return (the disposed error, classifiable as such).
+func TestC15Overlap(t *testing.T) {
+	g := kit.FullOpts()
+	g.DisposableBias = true
+	oo := overlapOpts{Gen: g, AKinds: []string{"get", "get", "get", "create"}, BKinds: []string{"close", "close", "close-ancestor", "pclose", "cancel"},
+		GateKind: allGates, ExtraWarm: 3, ExtraScopes: 2}
+	runOverlapTest(t, "C15", "operations-overlapping-close",
+		"controlled two-thread programs: thread A resolves (multi-output constructors, constructors that hand back one instance under two types, aliases, groups: the full generator) or creates a scope and is parked at the n-th constructor entry/exit or schedule point inside godi; thread B closes A's scope, an ancestor or the provider (or cancels the context) to completion; A is released; oracle: no call panics, no call hangs, and whatever A returns is a value or an error that classifies as the disposed error; non-trivial = A was parked",
+		oo,
+		func(c *overlapCase) *Failure {
+			f := c.checkOverlapResults("C15")
+			if f != nil && (f.Oracle == "no-panic" || f.Oracle == "no-hang" || f.Oracle == "documented-error") {
+				return f
+			}
+			return nil
+		},
+		func(c *overlapCase) bool { return true })
+}
+
 // TestC13UseDuringClose: the other way round - the Close is the operation that is
 // held (inside the Close() method of one of the instances it disposes, or at a
 // schedule point of the disposal) and a resolution or scope creation is issued
